@@ -109,7 +109,7 @@ Conservation == (~lying /\ ~cancelled) => (written <= Len(buffer) /\ sink \o Pen
 \* strict: also after a cancelled flush nothing queued later is skipped (violated by the pinned code)
 ConservationStrict == ~lying => (written <= Len(buffer) /\ sink \o Pending = ref)
 AfterOk == (fl = "idle" /\ lastr = "ok" /\ steps # <<>> /\ steps[Len(steps)].a = "flush" /\ ~lying /\ (cancelled => FixCancel)) => sink = ref /\ buffer = <<>> /\ written = 0
-FailedAddsNothing == (steps # <<>> /\ steps[Len(steps)].a \in {"queue", "queue_many"} /\ lastr = "err" /\ Len(steps) >= 2) =>
+FailedAddsNothing == (~cancelled /\ steps # <<>> /\ steps[Len(steps)].a \in {"queue", "queue_many"} /\ lastr = "err" /\ Len(steps) >= 2) =>
                         steps[Len(steps)].buffered = steps[Len(steps) - 1].buffered
 \* strict (violated by the pinned code after CancelFlush): `written` never points beyond the buffer
 WrittenInRange == written <= Len(buffer)
